@@ -102,11 +102,11 @@ WIN_ENV = {
 }
 TARGETS.append(dict(
     module="pyp0f.net.signatures.tcp", func="TCPPacketSignature.calculate_window_multiplier", file="WindowMultiplier",
-    lean="windowMult", divok=True, import_="P0f.Model.WMult",
+    lean="windowMult", safe=True, import_="P0f.Model.WMult",
     pyparams=["self"], params=[("p", "WIn")], ret="Tuple:Int,Bool", lean_ret="Int × Bool",
     env=WIN_ENV, list_types={"divs": "List:Tuple:Int,Bool"}, list_elem_hint="Tuple:Int,Bool",
     calls={"WindowMultiplier": tuple_ctor("value", "is_mtu")},
-    alias="def windowMult (p : WIn) : Int × Bool := P0f.windowMult p\ndef windowMult_divok (p : WIn) : Bool := true\n",
+    alias="def windowMult (p : WIn) : Int × Bool := P0f.windowMult p\ndef windowMult_safe (p : WIn) : Bool := true\n",
 ))
 
 # ---------------------------------------------------------------------------------------------- C01
@@ -138,13 +138,13 @@ MATCH_ENV = {
     "packet_signature.window_multiplier.value": ("p.multVal", "Int"),
 }
 TARGETS.append(dict(
-    module="pyp0f.fingerprint.tcp", func="tcp_signatures_match", file="TcpSignaturesMatch", lean="tcpSignaturesMatch", divok=True,
+    module="pyp0f.fingerprint.tcp", func="tcp_signatures_match", file="TcpSignaturesMatch", lean="tcpSignaturesMatch", safe=True,
     import_="P0f.Model.Match",
     pyparams=["signature", "packet_signature", "options"],
     params=[("s", "Sig"), ("p", "PSig"), ("maxDist", "Int")], ret="Opt:Enum:MatchType", lean_ret="Option MatchType",
     env=MATCH_ENV,
     alias="def tcpSignaturesMatch (s : Sig) (p : PSig) (maxDist : Int) : Option MatchType := P0f.tcpMatch s p maxDist\n"
-          "def tcpSignaturesMatch_divok (s : Sig) (p : PSig) (maxDist : Int) : Bool := true\n",
+          "def tcpSignaturesMatch_safe (s : Sig) (p : PSig) (maxDist : Int) : Bool := true\n",
 ))
 
 # ---------------------------------------------------------------------------------------------- gates
@@ -341,7 +341,7 @@ UPTIME_RECORDS = {
 }
 UPTIME_LEAN = "Q × Int × Int × Int"
 TARGETS.append(dict(
-    module="pyp0f.fingerprint.results.uptime", func="Uptime.__post_init__", file="UptimePostInit", lean="uptimePostInit", divok=True,
+    module="pyp0f.fingerprint.results.uptime", func="Uptime.__post_init__", file="UptimePostInit", lean="uptimePostInit", safe=True,
     import_="P0f.Generated.Logic.RoundFrequency\nimport P0f.Model.UptimeFields",
     pyparams=["self", "timestamp"], params=[("timestamp", "Nat"), ("raw_frequency", "Q")], ret="Rec:UptimeV", lean_ret=UPTIME_LEAN,
     env={"timestamp": ("timestamp", "Nat"), "self.raw_frequency": ("raw_frequency", "Q")},
@@ -349,7 +349,7 @@ TARGETS.append(dict(
     calls={"round_frequency": call_gen("P0f.Gen.roundFrequency", ["Q"], "Int")},
     end=lambda fn, env: "(raw_frequency, " + ", ".join(as_int(*env["self." + f]) for f in ("frequency", "total_minutes", "modulo_days")) + ")",
     alias="def uptimePostInit (timestamp : Nat) (raw_frequency : Q) : " + UPTIME_LEAN + " := P0f.uptimePostInit timestamp raw_frequency\n"
-          "def uptimePostInit_divok (timestamp : Nat) (raw_frequency : Q) : Bool := true\n",
+          "def uptimePostInit_safe (timestamp : Nat) (raw_frequency : Q) : Bool := true\n",
 ))
 
 
@@ -391,8 +391,8 @@ def _uptime_pre(stmts):
 
 UPRES_LEAN = "Option Int × Option (" + UPTIME_LEAN + ")"
 TARGETS.append(dict(
-    module="pyp0f.fingerprint.uptime", func="fingerprint_uptime", file="FingerprintUptime", lean="fingerprintUptime", divok=True,
-    divok_callees=("uptimePostInit",),
+    module="pyp0f.fingerprint.uptime", func="fingerprint_uptime", file="FingerprintUptime", lean="fingerprintUptime", safe=True,
+    safe_callees=("uptimePostInit",),
     import_="P0f.Generated.Logic.UptimePostInit\nimport P0f.Generated.Logic.ValidUptime\nimport P0f.Model.UptimeFields",
     pyparams=["packet", "last_packet_signature", "options"],
     params=[("o", "UpOpts"), ("isFragment", "Bool"), ("t", "Nat"), ("tsPrev", "Nat"), ("tsNow", "Nat"), ("now", "Int"), ("received", "Int")],
@@ -411,7 +411,7 @@ TARGETS.append(dict(
            "UptimeResult": _uptime_result, "Uptime": _uptime_ctor},
     alias="def fingerprintUptime (o : UpOpts) (isFragment : Bool) (t tsPrev tsNow : Nat) (now received : Int) : Option (" + UPRES_LEAN
           + ") := P0f.fingerprintUptimeFields o isFragment t tsPrev tsNow (now - received)\n"
-          "def fingerprintUptime_divok (o : UpOpts) (isFragment : Bool) (t tsPrev tsNow : Nat) (now received : Int) : Bool := true\n",
+          "def fingerprintUptime_safe (o : UpOpts) (isFragment : Bool) (t tsPrev tsNow : Nat) (now received : Int) : Bool := true\n",
 ))
 
 # ---------------------------------------------------------------------------------------------- C08
@@ -729,7 +729,7 @@ IMPOPT_ENV = {
     "timestamp_hint": ("(b.ts1Hint, b.ts2Hint)", "Tuple:Opt:Int,Opt:Int"),
 }
 TARGETS.append(dict(
-    module="pyp0f.impersonate.tcp", func="_impersonate_options", file="ImpersonateOptions", lean="impOptions", import_="P0f.Model.Impersonate", divok=True,
+    module="pyp0f.impersonate.tcp", func="_impersonate_options", file="ImpersonateOptions", lean="impOptions", import_="P0f.Model.Impersonate", safe=True,
     pyparams=["tcp", "signature", "uptime"], params=[("s", "Sig"), ("b", "Base"), ("uptime", "Option Int"), ("c", "Choices")],
     ret="List:Rec:SOpt", lean_ret="List SOpt", pre=_impopt_pre, env=IMPOPT_ENV, sort_carried=True, tuple_hook=_sopt_tuple,
     lean_types={"Rec:SOpt": "SOpt"}, list_types={"options": "List:Rec:SOpt"}, opt_types={"impersonated_option": "Opt:Rec:SOpt"},
@@ -746,9 +746,9 @@ TARGETS.append(dict(
     alias="def impOptions_loop0 (s : Sig) (b : Base) (uptime : Option Int) (c : Choices) (tcp_type : Nat) (ks : List Nat) (options : List SOpt) "
           "(rnd_stream : List (Nat × Nat)) : List SOpt := P0f.alignOptions (options ++ P0f.impOptionsGo s b uptime ks rnd_stream)\n"
           "def impOptions (s : Sig) (b : Base) (uptime : Option Int) (c : Choices) : List SOpt := P0f.impOptions s b uptime c\n"
-          "def impOptions_divok_loop0 (s : Sig) (b : Base) (uptime : Option Int) (c : Choices) (tcp_type : Nat) (ks : List Nat) (options : List SOpt) "
+          "def impOptions_safe_loop0 (s : Sig) (b : Base) (uptime : Option Int) (c : Choices) (tcp_type : Nat) (ks : List Nat) (options : List SOpt) "
           "(rnd_stream : List (Nat × Nat)) : Bool := true\n"
-          "def impOptions_divok (s : Sig) (b : Base) (uptime : Option Int) (c : Choices) : Bool := true\n",
+          "def impOptions_safe (s : Sig) (b : Base) (uptime : Option Int) (c : Choices) : Bool := true\n",
 ))
 
 # ---------------------------------------------------------------------------------------------- C09 / C10: signature text parsers
@@ -1019,7 +1019,7 @@ def dotted_name(n):
 
 TARGETS.append(dict(
     module="pyp0f.database.parse.parser", func="_parse_file", file="ParseFile", lean="parseFileLines",
-    import_="P0f.Glue.ParseFile", open="P0f P0f.Py", desugar=True, sort_carried=True,
+    import_="P0f.Glue.ParseFile", open="P0f P0f.Py", desugar=True, sort_carried=True, safe=True, safe_index=True,
     pyparams=["file"], params=[("file", "List (List Char)")], ret="Exc:Rec:Db", lean_ret="Except LoadErr Db", err_ty="LoadErr",
     err_default="(Except.error LoadErr.database)",
     env={"file": ("file", "List:Str")},
@@ -1041,7 +1041,8 @@ TARGETS.append(dict(
           "(line_number_next : Nat) (record_cls : Option RecKind) (state : PState) : Except LoadErr Db :=\n"
           "  match P0f.parseGo ls line_number_next { db := database, state := state, label := label, sec := record_cls.bind fun k => P0f.secOf k direction } with\n"
           "  | .ok st => .ok st.db\n  | .error e => .error e\n"
-          "def parseFileLines (file : List (List Char)) : Except LoadErr Db := P0f.parseLines file\n",
+          "def parseFileLines (file : List (List Char)) : Except LoadErr Db := P0f.parseLines file\n"
+          "def parseFileLines_safe (file : List (List Char)) : Bool := true\n",
 ))
 
 # ---------------------------------------------------------------------------------------------- C07: the HTTP payload reader
@@ -1053,6 +1054,7 @@ def _hdr_ctor(fn, args, kw, env):
 
 TARGETS.append(dict(
     module="pyp0f.net.layers.http.read", func="read_headers", file="ReadHeaders", lean="readHeaders", import_="P0f.Model.Http", open="P0f P0f.Py",
+    safe=True, safe_index=True,
     pyparams=["lines"], params=[("lines", "List Bytes")], ret="Opt:List:Rec:Hdr", lean_ret="Option (List Hdr)",
     env={"lines": ("lines", "List:Bytes")}, bytes_elem="Char", sort_carried=True,
     raises={"PacketError": "none", "ValueError": "none"}, list_types={"headers": "List:Rec:Hdr"},
@@ -1061,7 +1063,8 @@ TARGETS.append(dict(
     calls={"PacketHeader": _hdr_ctor},
     alias="def readHeaders_loop0 (lines : List Bytes) (l : List Bytes) (headers : List Hdr) : Option (List Hdr) :=\n"
           "  match P0f.readHeadersGo l headers with | .ok h => some h | .error _ => none\n"
-          "def readHeaders (lines : List Bytes) : Option (List Hdr) := match P0f.readHeadersGo lines [] with | .ok h => some h | .error _ => none\n",
+          "def readHeaders (lines : List Bytes) : Option (List Hdr) := match P0f.readHeadersGo lines [] with | .ok h => some h | .error _ => none\n"
+          "def readHeaders_safe (lines : List Bytes) : Bool := true\n",
 ))
 TARGETS.append(dict(
     module="pyp0f.net.layers.http.read", func="read_first_line", file="ReadFirstLine", lean="readFirstLine", import_="P0f.Model.Http\nimport P0f.Model.DbParse", open="P0f P0f.Py",
@@ -1083,7 +1086,8 @@ def _extract_lines(fn, args, kw, env):
 
 
 TARGETS.append(dict(
-    module="pyp0f.net.layers.http.read", func="read_payload", file="ReadPayload", lean="readPayload",
+    module="pyp0f.net.layers.http.read", func="read_payload", file="ReadPayload", lean="readPayload", safe=True, safe_index=True,
+    safe_callees=("readHeaders",),
     import_="P0f.Generated.Logic.ReadHeaders\nimport P0f.Generated.Logic.ReadFirstLine", open="P0f P0f.Py",
     pyparams=["buffer"], params=[("data", "Bytes")], ret="Opt:Tuple:Enum:Dir,Nat,List:Rec:Hdr", lean_ret="Option (Dir × Nat × List Hdr)",
     env={"buffer": ("data", "Bytes")}, bytes_elem="Char", raises={"PacketError": "none"},
@@ -1093,7 +1097,8 @@ TARGETS.append(dict(
            "read_headers": opt_call("P0f.Gen.readHeaders", ["List:Bytes"], "List:Rec:Hdr")},
     alias="def readPayload (data : Bytes) : Option (Dir × Nat × List Hdr) :=\n"
           "  match P0f.extractLines data with\n  | none => none\n  | some [] => none\n"
-          "  | some (first :: rest) => (P0f.Gen.readFirstLine first).bind fun r => (P0f.Gen.readHeaders rest).map fun hs => (r.1, r.2, hs)\n",
+          "  | some (first :: rest) => (P0f.Gen.readFirstLine first).bind fun r => (P0f.Gen.readHeaders rest).map fun hs => (r.1, r.2, hs)\n"
+          "def readPayload_safe (data : Bytes) : Bool := true\n",
 ))
 
 # ---------------------------------------------------------------------------------------------- C18: the writers
